@@ -278,7 +278,18 @@ def expand_ellipsis(idxs, ndim):
 
 def arr_getitem(ex, obj, idx):
     c = cell(ex, obj)
-    if ex.is_arr(idx):                      # boolean mask read: a[mask] -> 1-D selection (abstract)
+    if isinstance(idx, VTuple) and len(idx.items) == 1 and ex.is_arr(idx.items[0]):
+        idx = idx.items[0]                    # a[(index_array,)] == a[index_array]
+    if ex.is_arr(idx):
+        ic = cell(ex, idx)
+        if is_conc(ic.dtype.v) and ic.dtype.v.startswith(("int", "uint")) and len(ic.shape) == 1 and len(c.shape) == 1:
+            # integer-array ("fancy") indexing of a 1-D array: a gather, result[m] = a[idx[m]] (a copy, not a view)
+            iel, ael, n = ic.elem, c.elem, z_int(c.shape[0])
+
+            def gather(ix, iel=iel, ael=ael, n=n):
+                t = z_int(int_of(iel((ix[0],))))
+                return ael((z3.If(t >= 0, t, t + n),))
+            return new_array(ex, (ic.shape[0],), c.dtype, gather)
         raise Unsupported("boolean-mask read")
     idxs = expand_ellipsis(list(idx.items) if isinstance(idx, VTuple) else [idx], len(c.shape))
     if len(idxs) > len(c.shape):
@@ -828,8 +839,24 @@ NP["numpy.maximum"] = _minmax2(False)
 
 @npfn("numpy.where")
 def _where(ex, args, kwargs, fr):
+    if len(args) == 1 and ex.is_arr(args[0]) and len(cell(ex, args[0]).shape) == 1:
+        # np.where(mask) of a 1-D mask (library contract): a 1-tuple holding the strictly increasing array of ALL the indices
+        # at which the mask holds. Pointwise facts are instantiated at the registered 1-D generic indices; the total
+        # count M is a fresh integer in 0..size.
+        mc = cell(ex, args[0])
+        M = ex.st.fresh_int("n_true")
+        W = z3.Function(ex.st.fresh_name("where_index"), z3.IntSort(), z3.IntSort())
+        size = z_int(mc.shape[0])
+        ex.st.assume(z3.And(M >= 0, M <= size))
+        for g in generic_indices(ex, 1):
+            m = z_int(g[0])
+            ex.st.assume(z3.Implies(z3.And(m >= 0, m < M), z3.And(W(m) >= 0, W(m) < size, z_bool(truth(mc.elem((W(m),)))),
+                                                                    z3.Implies(m + 1 < M, W(m) < W(m + 1)))))
+        out = new_array(ex, (M,), VDtype("int64"), lambda ix, W=W: VInt(W(z_int(ix[0]))))
+        ex.st.cell(out).tag = ("where", W, M)
+        return VTuple([out])
     if len(args) != 3:
-        raise Unsupported("np.where with one argument")
+        raise Unsupported("np.where with one argument (only 1-D masks are modelled)")
     m, a, b = args
     mc = cell(ex, m)
     _, fa, fb = broadcast(ex, a, b) if (ex.is_arr(a) or ex.is_arr(b)) else (None, lambda ix: a, lambda ix: b)
@@ -945,6 +972,17 @@ def zb_(c):
 
 NP["numpy.any"] = NP["ndarray.any"] = _reduce_bool(True)
 NP["numpy.all"] = NP["ndarray.all"] = _reduce_bool(False)
+
+
+@npfn("numpy.divmod")
+def _divmod(ex, args, kwargs, fr):
+    """np.divmod(a, d) == (a // d, a % d) elementwise (floor division, library contract)."""
+    import ast as _ast
+    a, d = args[0], args[1]
+    if ex.is_arr(a) or ex.is_arr(d):
+        return VTuple([arr_binop(ex, _ast.FloorDiv(), a, d), arr_binop(ex, _ast.Mod(), a, d)])
+    from .ops import arith
+    return VTuple([arith(ex.cfg, _ast.FloorDiv(), a, d), arith(ex.cfg, _ast.Mod(), a, d)])
 
 
 @npfn("numpy.allclose")
